@@ -5,4 +5,4 @@ id=$1; pkg=$2; re=$3; name=$4; shift 4
 lc=$(echo $id | tr A-Z a-z)
 cd "$(dirname "$0")"
 ./seed_confirm.sh $id /tmp/seed/$id $pkg ${lc}_demo_test.go "$re" $name
-./mutate.sh /verif/seeded/$name/patch.diff "$@" 2>&1 | grep -E "VIOLATION|KNOWN|\[check\]|exit=|apply" 
+./mutate.sh /verif/seeded/$name/patch.diff "$@" 2>&1 | grep -E "VIOLATION|\[check\]|exit=|apply" | cut -c1-200
